@@ -25,7 +25,7 @@ EXPLANATION = (
     " R7 units are created with the number their own ability / names record carries (C09.R5 re-used); R8 the quick-timer duration (no vendor text; divmod arithmetic outside the bit domain) is evaluated by the checker's interpreter on all 1440 whole-minute durations (exact hours/minutes, decodes back), on wrap-around values and on 42 sub-minute witnesses (never later than requested, same in both generations); R9 the frame is written in one piece (C01.R4 re-used)."
 )
 ASSUMPTIONS = ["vendor tables transcribed in sa/spec/tables.py (DESIGN Appendix A) are the oracle", "values outside the vendor's valid ranges are outside the property's quantifier"]
-FLOORS = {"C04.R1": 40, "C04.R2": 30, "C04.R3": 30, "C04.R4": 14, "C04.R5": 6, "C04.R6": 1, "C04.R7": 1, "C04.R8": 7, "C04.R9": 1, "C04.R10": 1, "C04.R11": 1}
+FLOORS = {"C04.R1": 40, "C04.R2": 30, "C04.R3": 30, "C04.R4": 14, "C04.R5": 6, "C04.R6": 1, "C04.R7": 1, "C04.R8": 7, "C04.R9": 1, "C04.R10": 1, "C04.R11": 1, "C04.R12": 1, "C04.R13": 1}
 
 
 def run(ctx):
@@ -44,6 +44,11 @@ def run(ctx):
 
     _reuse(ctx, "C04.R10", [c03.r6], "the 0xC0 / 0x1F wrappers announce the lengths of the very message they carry (computed from that message in encode(), nothing remembered from an earlier size() call), so the console finds the record (C03.R6)")
     _reuse(ctx, "C04.R11", [c11.r4], "the set-point that reaches the wire is the rounded request clamped into [min, max] - the upper bound is the maximum (C11.R4)")
+    from . import c14
+
+    _reuse(ctx, "C04.R13", [c14.r1], "the limits a set-point is clamped into are those of the mode the console is in now: after a reconnection the AC status is requested again (C14.R1)",
+           keep=lambda o: "refresh" in o.construct or o.verdict != "HOLDS")
+    _reuse(ctx, "C04.R12", [c01.r5], "every accepted command is queued for transmission (no de-duplication or shortcut between acceptance and the queue) (C01.R5)")
     _reuse(ctx, "C04.R9", [c01.r4], "the frame reaches the wire in one piece (header, payload, check bytes written back to back with no suspension in between), so what the console reads is the frame that was built (C01.R4)")
     from . import c09
     from .common import AT4_API, AT5_API, reuse
